@@ -1006,7 +1006,10 @@ pub fn int_vector_loop(push_state: &mut PushState, _instruction_cache: &Instruct
 /// INTVECTOR.MEAN: Pushes the mean of the top INTVECTOR to the float stack
 pub fn int_vector_mean(push_state: &mut PushState, _instruction_cache: &InstructionCache) {
     if let Some(numbers) = push_state.int_vector_stack.get(0) {
-        let sum = numbers.values.iter().sum::<i32>() as f32;
+        let sum = numbers
+            .values
+            .iter()
+            .fold(0i32, |acc, x| acc.wrapping_add(*x)) as f32;
         let size = numbers.values.len() as f32;
         push_state.float_stack.push(sum / size);
     }
@@ -1119,7 +1122,9 @@ pub fn int_vector_stack_depth(push_state: &mut PushState, _instruction_cache: &I
 /// INTVECTOR.SUM Pushes the sum of the elements to the INTEGER stack.
 pub fn int_vector_sum(push_state: &mut PushState, _instruction_cache: &InstructionCache) {
     if let Some(ivec) = push_state.int_vector_stack.get(0) {
-        push_state.int_stack.push(ivec.values.iter().sum());
+        push_state
+            .int_stack
+            .push(ivec.values.iter().fold(0i32, |acc, x| acc.wrapping_add(*x)));
     }
 }
 
